@@ -61,6 +61,9 @@ def build(tier="quick", seed=0):
             w = it.call(st.g["RecordStreamWriter"], [fp], {})
             recs = []
             for kind in spec.replace("!", ""):
+                if kind == "+":  # the source is a concatenation of streams (cat a b > c, appended runs): a new writer starts here, with its own header frame
+                    w = it.call(st.g["RecordStreamWriter"], [fp], {})
+                    continue
                 r = it.call(A, [], {"n": k, "s": SStr(sv[k % 6]), "ts": (None if k == 2 else T1), "ts2": (None if k % 3 == 1 or k == 2 else T2), "_generated": GEN}) if kind == "A" else it.call(B, [], {"n": k, "t": f"t{k}", "_generated": GEN})
                 k += 1
                 it.call(it.getattr_(w, "write"), [r], {})
@@ -195,6 +198,7 @@ def build(tier="quick", seed=0):
 
     # ------------------------------------------------------------------ pipeline over option combinations (record stream writer: full fidelity)
     LAYOUT = ["ABA", "BA", "A"]
+    LAYOUT_CAT = ["A+BA", "B+A+A"]
     OPTS = [{}, {"skip": 1}, {"skip": 2, "count": 2}, {"count": 1}, {"count": 0}, {"skip": 7}, {"selector": "r.n >= 2"}, {"selector": "r.n >= 2", "skip": 1, "count": 2}, {"selector": "r.n >= 2", "no_compile": True, "skip": 1, "count": 2},
             {"selector": "r.n != 3 and has_field(r, 's')", "no_compile": True}, {"selector": "name(r) == 'c16/b' or r.n == 0"}, {"selector": "r.nosuch == 1"}, {"fields": ["s", "n"]}, {"exclude": ["ts", "ts2"]}, {"fields": ["n", "s", "nosuch"], "exclude": ["s"]},
             {"selector": "any(x == r.n for x in (0, 2, 3, 5))", "no_compile": True}, {"selector": "any(x == r.n for x in (0, 2, 3, 5))"}, {"record_source": "src-x"}, {"record_classification": "cls-y", "record_source": ""}, {"multi_timestamp": True}, {"multi_timestamp": True, "exclude": ["ts2"], "skip": 1}, {"selector": "r.n >= 1", "skip": 1, "count": 3, "fields": ["n", "ts"], "record_source": "z", "multi_timestamp": True}]
@@ -212,6 +216,19 @@ def build(tier="quick", seed=0):
         name = f"C16.pipeline[{opts or 'no options'}]"
         pack.add(Obligation(name, lambda tier, name=name, opts=opts: prove_paths(name, th_pipeline(opts), lambda p: (compare(p.value[0], p.value[1]) if p.value[2] else (False, "the output was not closed")), lambda m_, p: {}, allow_raise=("UnicodeEncodeError", "error")),
                             replay=lambda w, opts=opts: {"call": "c16_pipeline", "args": {"opts": opts}}, functions=FU, mode="representative option combinations over three source files (6 records of two types), symbolic text values"))
+    def th_pipeline_cat(opts):
+        def th():
+            fresh()
+            paths, intact = make_sources(LAYOUT_CAT)
+            rc, _, _ = run_main(argv_of(opts, paths, "/abs/out.records"))
+            f = it.vfs.get("/abs/out.records")
+            return decode_output("stream", f) if f is not None else [], reference(intact, opts), f is not None and f.closed
+        return th
+
+    for opts in ({}, {"skip": 1, "count": 3}, {"selector": "r.n >= 2", "no_compile": True}, {"selector": "r.n >= 2"}, {"record_source": "src-x"}):
+        name = f"C16.pipeline[sources that are concatenated streams, {opts or 'no options'}]"
+        pack.add(Obligation(name, lambda tier, name=name, opts=opts: prove_paths(name, th_pipeline_cat(opts), lambda p: (compare(p.value[0], p.value[1]) if p.value[2] else (False, "the output was not closed")), lambda m_, p: {}, allow_raise=("UnicodeEncodeError", "error")),
+                            replay=lambda w, opts=opts: {"call": "c16_pipeline", "args": {"opts": opts, "layout": LAYOUT_CAT}}, functions=FU, mode="two source files, each a concatenation of record streams (a header frame in the middle of the file)"))
     pack.case_analyses.append(f"{len(OPTS)} option combinations (skip, count incl. 0, selectors on both engines, -F, -X, metadata overrides, --multi-timestamp and their combination)")
 
     # ------------------------------------------------------------------ isolation of bad sources at every position
